@@ -75,6 +75,16 @@ Theorem send_not_atomic_splits :
 Proof. exact send_interleaved_splits. Qed.
 Print Assumptions send_not_atomic_splits.
 
+(* "Stream longer than the face lifetime": an on-demand stream face moves its expiry to now + lifetime at every received
+   frame, the clock being read at that frame; then a stream whose frames arrive with gaps of at most the lifetime is never past
+   its expiry when a frame arrives, however long it lasts.  (Reading the clock once per connection breaks this:
+   StreamProofs.clock_read_once_expires; checked on the real UnicastTCPTransport over a loopback socket, lifetime 1 s.) *)
+Theorem stream_face_stays_up : forall life arrivals t0,
+  (0 <= life)%Z -> gaps_ok life t0 arrivals ->
+  forall k t, nth_error arrivals k = Some t -> (t <= expiry_after life t0 (firstn k arrivals))%Z.
+Proof. exact stream_face_stays_up_lemma. Qed.
+Print Assumptions stream_face_stays_up.
+
 (* Outside the statement ("well-formed" = shortest forms): a non-minimal number form is mis-framed. Recorded, not a violation. *)
 Theorem nonminimal_form_misframed :
   exists stream sched, snd (fst (fst (run true stream sched))) = [[253;0;6]] /\ stream = [253;0;6; 1; 170].
